@@ -2,7 +2,7 @@
 import numpy as np
 from hypothesis import strategies as st
 
-from vk import SubCheck, Violation, call, judge, check
+from vk import SubCheck, Violation, call, judge, check, note_label
 
 PROPERTY = 'C06'
 LEVEL = 'exploration'
@@ -146,7 +146,11 @@ def tuple_strategy(fields):
 
 
 def obj_strategy():
-    return st.lists(tuple_strategy(OBJ_FIELDS), min_size=1, max_size=5).map(lambda rows: dict(rows=rows))
+    def defaults(rows):
+        # the optional fields at their default values (rerun 301, skyversion 2, firstfield 0) in every row
+        return [dict(r, rerun=301, skyversion=2, firstfield=0) for r in rows]
+    base = st.lists(tuple_strategy(OBJ_FIELDS), min_size=1, max_size=5)
+    return st.one_of(base, base, base.map(defaults)).map(lambda rows: dict(rows=rows))
 
 
 def obj_body(case):
@@ -165,6 +169,13 @@ def obj_body(case):
     keep = {n: a.copy() for n, a in arr.items()}
     g = call(sdss_objid, arr['run'], arr['camcol'], arr['field'], arr['objnum'], rerun=arr['rerun'],
              skyversion=arr['skyversion'], firstfield=arr['firstfield'])
+    # the optional fields given explicitly as the scalars that are their defaults, next to arrays for the rest
+    if all(r['rerun'] == 301 and r['skyversion'] == 2 and r['firstfield'] == 0 for r in rows):
+        g2 = call(sdss_objid, arr['run'], arr['camcol'], arr['field'], arr['objnum'], rerun=301, skyversion=2, firstfield=0)
+        g3 = call(sdss_objid, arr['run'], arr['camcol'], arr['field'], arr['objnum'])
+        with judge('objid-default-scalars'):
+            check([int(x) for x in g2] == exp and [int(x) for x in g3] == exp, 'objid-explicit-default-scalars-differ', lambda: dict(got=[int(x) for x in g2], want=exp))
+        note_label('default-scalars-with-arrays')
     with judge('objid-array'):
         check(all(np.array_equal(arr[n], keep[n]) for n in arr), 'objid-modifies-its-input-arrays')
         check([int(x) for x in g] == exp, 'objid-scalar-vs-array', lambda: dict(rows=rows, got=[int(x) for x in g], want=exp))
@@ -295,8 +306,8 @@ def reject_strategy():
     def strat(draw):
         which = draw(st.sampled_from(['obj', 'spec']))
         fields = OBJ_FIELDS if which == 'obj' else SPEC_FIELDS
-        mode = draw(st.sampled_from(['range', 'range', 'range', 'length', 'both-low', 'run2d-string'] if which == 'spec'
-                                    else ['range', 'range', 'length']))
+        mode = draw(st.sampled_from(['range', 'range', 'range', 'length', 'both-low', 'run2d-string', 'shape'] if which == 'spec'
+                                    else ['range', 'range', 'length', 'shape']))
         n = draw(st.integers(1, 4))
         rows = [draw(tuple_strategy(fields)) for _ in range(n)]
         conv = draw(st.sampled_from(['scalar', 'array']))
@@ -319,6 +330,12 @@ def reject_strategy():
             case['field'] = draw(st.sampled_from([f[0] for f in fields]))
             case['extra'] = draw(st.integers(1, 3))
             case['conv'] = 'array'
+        elif mode == 'shape':
+            # as many elements as the others but not the same shape: one field handed over as a column vector
+            case['field'] = draw(st.sampled_from([f[0] for f in fields if f[0] not in ('run', 'plate')]))
+            case['conv'] = 'array'
+            if len(rows) < 2:
+                case['rows'] = rows + [draw(tuple_strategy(fields))]
         return case
     return strat()
 
@@ -340,6 +357,8 @@ def reject_body(case):
         if mode == 'length':
             f = case['field']
             args[f] = np.concatenate([args[f], args[f][:1].repeat(case['extra'])])
+        if mode == 'shape':
+            args[case['field']] = args[case['field']].reshape(-1, 1)
     try:
         if which == 'obj':
             got = call(sdss_objid, args['run'], args['camcol'], args['field'], args['objnum'], rerun=args['rerun'],
